@@ -128,9 +128,9 @@ Inductive phase :=
 | PMade               (* start_execution: output directory made *)
 | PRunning            (* start_execution: task process spawned *)
 | PExited (rc : N)    (* wait_for_next_op returned the exit status *)
+| PArgs (rc : N)      (* finish_execution: args.json step passed (for every exit status: D26) *)
+| POpts (rc : N)      (* finish_execution: options.json step passed *)
 | PChecked            (* finish_execution: return code was 0 *)
-| PArgs               (* finish_execution: args.json step passed *)
-| POpts               (* finish_execution: options.json step passed *)
 | PInserted           (* insert_output_version executed (uncommitted) *)
 | PDone               (* commit_changes executed *)
 | PFailed.            (* TaskNonZeroExit raised *)
@@ -339,7 +339,7 @@ Definition do_reap (e : N) (s : state) : state :=
 Definition do_check (e : N) (s : state) : state :=
   with_op s e (fun last hd ops txn o =>
     match o_phase o with
-    | PExited rc =>
+    | POpts rc =>
       with_proc (Some (PRun last hd (upd_op e (if rc =? 0 then PChecked else PFailed) ops) txn)) s
     | _ => s
     end).
@@ -350,18 +350,18 @@ Definition touch (k : key) (f : dir -> dir) (D : fs) : fs :=
 Definition do_write_args (e : N) (s : state) : state :=
   with_op s e (fun last hd ops txn o =>
     match o_phase o with
-    | PChecked =>
+    | PExited rc =>
       let D' := if fst (o_need o) then touch (o_key o) (set_args true) (s_dirs s) else s_dirs s in
-      with_proc (Some (PRun last hd (upd_op e PArgs ops) txn)) (with_dirs D' s)
+      with_proc (Some (PRun last hd (upd_op e (PArgs rc) ops) txn)) (with_dirs D' s)
     | _ => s
     end).
 
 Definition do_write_opts (e : N) (s : state) : state :=
   with_op s e (fun last hd ops txn o =>
     match o_phase o with
-    | PArgs =>
+    | PArgs rc =>
       let D' := if snd (o_need o) then touch (o_key o) (set_opts true) (s_dirs s) else s_dirs s in
-      with_proc (Some (PRun last hd (upd_op e POpts ops) txn)) (with_dirs D' s)
+      with_proc (Some (PRun last hd (upd_op e (POpts rc) ops) txn)) (with_dirs D' s)
     | _ => s
     end).
 
@@ -370,7 +370,7 @@ Definition do_write_opts (e : N) (s : state) : state :=
 Definition do_insert (e : N) (s : state) : state :=
   with_op s e (fun last hd ops txn o =>
     match o_phase o with
-    | POpts =>
+    | PChecked =>
       if existsb (key_eqb (o_key o)) (map row_key (s_rows s ++ txn)) then stop s
       else with_proc (Some (PRun last hd (upd_op e PInserted ops) (txn ++ [row_of o]))) s
     | _ => s
@@ -530,9 +530,13 @@ Definition op_labels (e : N) (sp : spec) : list label :=
   if sp_runs sp then
     [LMkdir e; LSpawn e (sp_script sp) (sp_rc sp)]
     ++ match sp_sig sp with
-       | None => repeat (LChild e) (S (length (sp_script sp))) ++ [LReap e; LCheck e]
-                 ++ (if sp_rc sp =? 0 then [LWriteArgs e; LWriteOpts e; LInsert e; LCommit] else [])
-       | Some sig => repeat (LChild e) (length (sp_script sp)) ++ [LKill e sig; LReap e; LCheck e]
+       | None => repeat (LChild e) (S (length (sp_script sp))) ++ [LReap e; LWriteArgs e; LWriteOpts e; LCheck e]
+                 ++ (if sp_rc sp =? 0 then [LInsert e; LCommit] else [])
+       (* the task is killed by a signal.  15 = SIGTERM sent by Conductor's terminate_processes when the
+          run is aborted: finish_execution is never called.  Any other signal = the task died on its
+          own: finish_execution runs (records args / options, then raises for the non-zero status). *)
+       | Some sig => repeat (LChild e) (length (sp_script sp)) ++ [LKill e sig; LReap e]
+                     ++ (if sig =? 15 then [] else [LWriteArgs e; LWriteOpts e; LCheck e])
        end
   else [].
 
